@@ -5,7 +5,7 @@ from __future__ import annotations
 import numpy as np
 from hypothesis import strategies as st
 
-from vf.core import LibRaised, Result, lib
+from vf.core import LibRaised, Result, history_independent, lib
 
 ID = "C14"
 TITLE = "Brooks-Corey relative permeabilities are finite, within [0, k_max] and monotone"
@@ -223,6 +223,14 @@ def check_case(case) -> Result:
                 res.bad("C14/shape", f"result shape {getattr(kr, 'shape', None)} for {len(case['sats'])} records")
                 return res
             # single-precision records: the end point itself is rounded to float32 (4 eps32 relative)
+            # the result for these parameters does not depend on which other parameter sets were evaluated before
+            other = dict(p, n_o=min(6.0, p["n_o"] + 0.5), k_ro_max=p["k_ro_max"] * 0.5, S_or=p["S_or"] * 0.5)
+
+            def _call(par):
+                k_ = relative_permeabilities(recs, RelPermParams(**par))
+                return np.array([k_["kro"], k_["krw"], k_["krg"]], float)
+
+            lib("relative_permeabilities", history_independent, res, "C14/independent-of-call-history", _call, (p,), [(other,), (dict(p, n_g=1.0, S_gc=0.0),)], "relative_permeabilities")
             _check_values(res, p, recs["So"], recs["Sw"], recs["Sg"], kr, "", rel=1e-12 if case.get("rec_dtype", "f8") == "f8" else 5e-7, tiny=0.0 if case.get("rec_dtype", "f8") == "f8" else 1e-37)
             denom = 1 - p["S_or"] - p["S_wc"] - p["S_gc"]
             norm = np.array(
